@@ -91,11 +91,19 @@ def gen_affine(rnd, stratum=None):
             n7 = rnd.choice([1, 1, 2])
             parts[w] = ["%s(%d)" % (rnd.choice(["uniform_shape", "uniform_shape", "nway_shape"]),
                                     rnd.randint(2, 5)) for _ in range(n7)]
-            parts[q] = ["follow(%s)" % w]
             wl = [w + str(j) for j in range(n7, -1, -1)]
-            ql = [q + str(j) for j in range(n7, -1, -1)]
-            groups.append(rnd.choice([wl + [s], wl[:-1] + [q + "0", s], ql + [s]]))
-            info["tags"].append("input-partitioned-output-follows")
+            if rnd.random() < 0.5:
+                parts[q] = ["follow(%s)" % w]
+                ql = [q + str(j) for j in range(n7, -1, -1)]
+                groups.append(rnd.choice([wl + [s], wl[:-1] + [q + "0", s], ql + [s]]))
+                info["tags"].append("input-partitioned-output-follows")
+            else:
+                # the other INPUT's rank follows the partitioned input rank
+                parts[s] = ["follow(%s)" % w]
+                sl = [s + str(j) for j in range(n7, -1, -1)]
+                groups.append(rnd.choice([wl + [q], [q] + wl, wl[:-1] + [q, w + "0"], sl + [q]]))
+                info["tags"].append("input-partitioned-filter-follows")
+            info["follower"] = "q" if q in parts else "s"
             info["dims"].append({"a": a, "b": b, "kind": kind, "nlev": n7, "halo": halo,
                                  "q": q, "s": s, "w": w})
             continue
